@@ -110,6 +110,11 @@ pub struct Session {
     pub points_seen: Mutex<Vec<&'static str>>,
     sched_on: AtomicBool,
     fsync_open: AtomicBool,
+    /// io_uring completion ids pushed and not yet reaped on the store's ring (C20: an id must not be
+    /// handed out again while an earlier submission carrying it is outstanding - its completion would
+    /// be taken for the new write's)
+    pub uring_ids: Mutex<std::collections::HashSet<u64>>,
+    pub uring_id_clash: Mutex<Option<u64>>,
 }
 
 impl Session {
@@ -139,6 +144,8 @@ impl Session {
             points_seen: Mutex::new(Vec::new()),
             sched_on: AtomicBool::new(false),
             fsync_open: AtomicBool::new(false),
+            uring_ids: Mutex::new(std::collections::HashSet::new()),
+            uring_id_clash: Mutex::new(None),
         })
     }
 
@@ -371,6 +378,14 @@ impl Handler for Session {
             self.worker_begin.fetch_add(1, Ordering::SeqCst);
         } else if name == "uring_done" {
             crate::kledger::completion_seen(a as usize);
+        } else if name == "uring_push" {
+            if !self.uring_ids.lock().insert(a) {
+                self.uring_id_clash.lock().get_or_insert(a);
+            }
+        } else if name == "uring_cqe" {
+            self.uring_ids.lock().remove(&a);
+        } else if name == "uring_ring_gone" {
+            self.uring_ids.lock().clear();
         }
         if let Some(s) = self.sched() {
             s.note(name, a, b);
